@@ -3,6 +3,7 @@ NEXT GNext
 VIEW View
 ACTION_CONSTRAINT Edge
 CONSTANTS Cap = 50
+ Bursts = {49}
  MaxSteps = 5
  Handles = {"h1", "h2", "h3"}
  Events = {"one", "two", "empty"}
